@@ -47,11 +47,21 @@ CONSTANTS ValidateOnPrint,
           MaxParams, MaxBlocks, MaxInsts,
           InstRes, TermKinds,
           Forms,             \* syntactic forms of the call-like values (see below)
+          NameStyles,        \* how named definitions are called: subset of {"alpha", "numeral"}
           MaxSrc,
           EmitFile
 
-VARIABLES kind, stage, f, src, form
-vars == <<kind, stage, f, src, form>>
+VARIABLES kind, stage, f, src, form, names
+vars == <<kind, stage, f, src, form, names>>
+
+(***************************************************************************)
+(* `names` selects what the *named* definitions of a vector are called:    *)
+(* "alpha" (p3, b4, g1, ..) or "numeral": quoted all-digit names "0", "1", *)
+(* "00", "42", .. -- names, never numbers (LLVM: %"0" and %0 are different  *)
+(* values), interleaved with the unnamed ones.  The numbering does not     *)
+(* mention names either; the harness requires every reference to be bound  *)
+(* to the right definition and the print to keep the quotes.               *)
+(***************************************************************************)
 
 (***************************************************************************)
 (* Whether a call-like value takes a number depends on its *result type*   *)
@@ -86,11 +96,11 @@ SrcEntries == {[kind |-> k, name |-> nm] : k \in {"global", "alias", "ifunc", "f
 \* LLVM verifier: catchswitch heads its block and is not in the entry block
 ValidBlock(pos, is, t) == t.k = "catchswitch" => (is = <<>> /\ pos > 1)
 
-Init == /\ kind \in Kinds /\ stage = 0 /\ form = "short"
+Init == /\ kind \in Kinds /\ stage = 0 /\ form = "short" /\ names \in NameStyles
         /\ f = [params |-> <<>>, blocks |-> <<>>] /\ src = <<>>
 
 NextFunc ==
-  /\ kind = "func" /\ UNCHANGED <<kind, src>>
+  /\ kind = "func" /\ UNCHANGED <<kind, src, names>>
   /\ \/ /\ stage = 0
         /\ \E ps \in ParamSeqs : f' = [f EXCEPT !.params = ps]
         /\ form' \in Forms
@@ -102,7 +112,7 @@ NextFunc ==
         /\ stage' = stage + 1 /\ UNCHANGED form
 
 NextMod ==
-  /\ kind = "mod" /\ UNCHANGED <<kind, f, form>>
+  /\ kind = "mod" /\ UNCHANGED <<kind, f, form, names>>
   /\ Len(src) < MaxSrc
   /\ \E e \in SrcEntries : src' = Append(src, e)
   /\ stage' = stage + 1
@@ -165,7 +175,7 @@ Write(rec) == Serialize(ToJson(rec) \o "\n", EmitFile,
 
 Emit ==
   IF kind' = "func"
-  THEN stage' >= 2 => Write([kind |-> "func", f |-> ShapeOf(f'), form |-> form', ids |-> LLVMLocalNumbering(f')])
-  ELSE Write([kind |-> "mod", src |-> src', textual |-> TextualGlobalNumbering(src'),
+  THEN stage' >= 2 => Write([kind |-> "func", f |-> ShapeOf(f'), form |-> form', names |-> names', ids |-> LLVMLocalNumbering(f')])
+  ELSE Write([kind |-> "mod", src |-> src', names |-> names', textual |-> TextualGlobalNumbering(src'),
               printed |-> PrintedNumber(src')])
 =============================================================================
